@@ -1285,6 +1285,15 @@ func c12Body(c *run.Ctx) {
 		}
 		kC12CLI.Do(c, c12CLICase{Tag: "random", Vals: run.TVs(vs), Modes: c12SomeModes(r, 11), YAML: yaml})
 	}
+	// 6b. number literals with hostile spellings, touched by one operation
+	for li, lits := range c12TouchedLits {
+		for pi, prog := range c12TouchedProgs {
+			if c.Quick() && (li+pi)%2 != 0 && li > 0 {
+				continue
+			}
+			kC12Touched.Do(c, c12TouchedCase{Lits: lits, Prog: prog})
+		}
+	}
 	// 7. strings that reach the command as raw bytes
 	rawModes := [][]string{{"-c"}, {}, {"-C"}, {"--tab"}}
 	for i := 0; i < len(all); i += 400 {
